@@ -338,6 +338,26 @@ class QFDriver:
                 st, got = self.call(o.get_hashes)
                 ctx.check(s, sorted(got) == sorted(self.model),
                           lambda: f"{what}: get_hashes() = {[hex(x) for x in sorted(got)]} != model {[hex(x) for x in sorted(self.model)]}")
+                # two walks at once: an iterator over the stored hashes is left half-way while the whole list is taken (of the same
+                # filter and of an independent one), then finished - each walk is its own
+                def overlapped():
+                    it = o.hashes()
+                    part = []
+                    for _ in range(len(self.model) // 2):
+                        x = next(it, None)
+                        if x is None:
+                            break
+                        part.append(x)
+                    other = self.K(quotient=3, auto_expand=True, hash_function=self.hf)
+                    for x in (1 << 29, (1 << 29) + 1, 3 << 29, 5):
+                        other.add_alt(x)
+                    mid = (sorted(o.get_hashes()), sorted(other.get_hashes()))
+                    return sorted(part + list(it)), mid
+                st, ov = self.call(overlapped)
+                if st == "ok":
+                    ctx.check(s, ov[0] == sorted(self.model) and ov[1][0] == sorted(self.model) and ov[1][1] == sorted([1 << 29, (1 << 29) + 1, 3 << 29, 5]),
+                              lambda: f"{what}: two overlapping walks over the stored hashes disturb each other: {[hex(x) for x in ov[0]]} / "
+                                      f"{[hex(x) for x in ov[1][0]]} vs model {[hex(x) for x in sorted(self.model)]}")
                 if isinstance(got, list):
                     # the list is the caller's: used up as a work stack here - the filter must not be holding on to it
                     snapshot_ = sorted(got)
